@@ -91,7 +91,8 @@ func (this *RGBLuminanceSource) IsCropSupported() bool {
 }
 
 func (this *RGBLuminanceSource) Crop(left, top, width, height int) (LuminanceSource, error) {
-	if left < 0 || top < 0 || left+width > this.GetWidth() || top+height > this.GetHeight() {
+	if left < 0 || top < 0 || width < 0 || height < 0 ||
+		left+width > this.GetWidth() || top+height > this.GetHeight() {
 		return nil, errors.New("IllegalArgumentException: Crop rectangle does not fit within image data")
 	}
 	return &RGBLuminanceSource{
